@@ -80,3 +80,50 @@ var divZeroTable = map[string]string{}
 var nonZeroFields = map[string]string{
 	"lib/stringlib.packFormatReader.maxAlignment": "initialised to the constant defaultMaxAlignement and otherwise only assigned optSize after smallOptSize() accepted it (1..16)",
 }
+
+type internalPanic struct {
+	count  int
+	reason string
+}
+
+// internalPanics: explicit panic sites that can propagate to the host but that
+// no input reaches, keyed "<function>:<static type of the value>", with the
+// number of such sites in the function and the reason. (DESIGN.md Appendix A.)
+var internalPanics = map[string]internalPanic{}
+
+func init() {
+	ip := func(key string, n int, reason string) { internalPanics[key] = internalPanic{n, reason} }
+	// --- front end
+	ip("(*scanner.Scanner).emit:string", 1, "reached only with token.INVALID, i.e. a symbol lexeme missing from the scanner's symbol table; every lexeme scanToken can form is a key")
+	ip("(ast.NoTableKey).ProcessExp:string", 1, "astcomp tests for NoTableKey before compiling a table key")
+	ip("(*astcomp.compiler).getEllipsisReg:string", 1, "name lookup climbs to the main chunk, which always declares '...'")
+	ip("(*astcomp.compiler).getCallerReg:string", 1, "compileFunctionBody declares the caller register first thing")
+	ip("astcomp.must:astcomp.compilerBug", 1, "labels passed to must() are fresh (GetNewLabel) or <break>, which no source identifier can spell")
+	ip("(*astcomp.compiler).ProcessLocalStat:astcomp.compilerBug", 1, "the parser only produces the three known attribs")
+	ip("(*ir.CodeBuilder).ReleaseRegister:string", 1, "relies on Take/ReleaseRegister pairing inside astcomp (assumed, not proven)")
+	ip("(*ir.CodeBuilder).PopContext:string", 1, "relies on Push/PopContext pairing inside astcomp (assumed, not proven)")
+	ip("(ircomp.instrCompiler).ProcessCombineInstr:string", 1, "invalid op: excluded by R-SIBLING (codeBinOp total over ops astcomp emits)")
+	ip("(ircomp.instrCompiler).ProcessTransformInstr:string", 1, "invalid op: excluded by R-SIBLING (codeUnOp total over ops astcomp emits)")
+	ip("code.KIndexFromInt:string", 1, "ircomp.kIndex tests the range and raises a CompilationPanic before calling it; RefactorCodeConsts passes a count bounded by the unit's constant count, which passed that test")
+	ip("(*ircomp.ConstantCompiler).CompileQueue:string", 1, "internal queue invariant (constant indexes are assigned by the queue itself)")
+	ip("code.Index8FromInt:string", 1, "guarded by the two range tests in ircomp before each call")
+	ip("(*code.Builder).EmitLabel:string", 1, "every declared label is emitted exactly once by the statement that declares it (EmitGotoLabel refuses a second emission)")
+	ip("(*code.Builder).Offset:string", 1, "'Illegal offset': offsets are computed from labels the builder itself resolved")
+	// --- VM invariants only forged bytecode could violate (not claimed, see C04 level note)
+	ip("(*runtime.LuaCont).RunInThread:string", 5, "unsupported-opcode defaults of exhaustive switches; R-SIBLING proves every emitted opcode has a case")
+	ip("(*runtime.LuaCont).getRegCell:string", 1, "'should be a cell': register kinds are fixed by the compiler")
+	ip("runtime.NewLuaCont:string", 1, "'Closure not ready': all upvalues are added before a closure value is published")
+	ip("(*runtime.Runtime).LoadLuaUnit:string", 1, "'Unsupported constant type': constants come from the compiler's closed set")
+	ip("(runtime.Value).AsCont:string", 1, "called only on values the VM itself stored as continuations")
+	ip("(runtime.Value).AsCallable:string", 1, "called only after a successful callable test")
+	// --- coroutine protocol assertions
+	ip("(*runtime.Thread).Resume:string", 1, "the caller passed to Resume is the running thread (status ThreadOK by construction)")
+	ip("(*runtime.Thread).Close:string", 1, "same protocol assertion as Resume")
+	ip("(*runtime.Thread).Yield:string", 2, "same protocol assertions; Yield on the main thread is rejected with an error earlier")
+	ip("(*runtime.Thread).end:string", 2, "end runs on the coroutine's own goroutine whose caller is waiting in getResumeValues")
+	ip("(*runtime.Thread).getResumeValues:interface{}", 1, "forwards to the resumer a value recovered by Thread.Start's handler (ContextTerminationError / threadClose); anything else was already escaping on the coroutine's goroutine")
+	// --- accounting
+	ip("(*runtime.runtimeContextManager).ReleaseMem:string", 1, "'Too much mem released': reachable only if a release is not matched by an earlier require; R-RELEASE (C06) checks the balance on every path of every releasing function")
+	// --- host-side misuse
+	ip("(*runtime.GoFunction).SolemnlyDeclareCompliance:string", 1, "'Invalid safety flags': host programming error at registration time; flags are constants (R-REGTABLE)")
+}
